@@ -62,6 +62,7 @@ def run_case(case):
     viol = []
     g = np.random.default_rng(case["seed"])
     cfg = boundary.gen_case_cfg(g)
+    cfg["prior_nan_outside"] = False  # C10's input class; here the carried prior is compared with the -inf convention
     shown = {k: cfg.get(k) for k in ("sampler", "xp", "dtype", "n", "opts", "precond", "outside_mode", "recipe", "resume", "cut_below")}
     where = f"{shown}"
     try:
